@@ -461,9 +461,17 @@ pub fn sim_manual(scn: &W4Scn, seed: u64) -> (u64, u64) {
 }
 
 pub fn sim_manual_kind(scn: &W4Scn, seed: u64, kind: usize) -> (u64, u64) {
+    sim_manual_kind_skip(scn, seed, kind, 0)
+}
+
+pub fn sim_manual_kind_skip(scn: &W4Scn, seed: u64, kind: usize, skip: u64) -> (u64, u64) {
+    use rand::RngCore;
     let mut w = World::new(&scn.cfg);
     seed_world(&mut w, scn);
     let mut rng = SeamRng::passthrough_kind(seed, kind);
+    for _ in 0..skip {
+        let _ = rng.next_u64();
+    }
     w.run_manual(&scn.agents, &scn.cfg.ticks, &mut rng, scn.cfg.n_steps);
     (w.digest(), rng.draws)
 }
@@ -591,23 +599,38 @@ pub fn execute_c09(scn: &W4Scn, run_dir: &str) -> RunOutcome {
         stats.probe("manual_loop_with_seam_rng");
         stats.probe_n("rng_draws", draws);
         if d1 != d3 {
-            // no property names the generator algorithm: before reporting, try the documented loop with every other
-            // seedable generator the runner could have built from `seed` (a swapped algorithm keeps C09 true)
-            let mut other = None;
-            for kind in 1..crate::rng::GEN_NAMES.len() {
-                if let Ok((dk, _)) = guard(|| sim_manual_kind(scn, seed, kind)) {
-                    if dk == d1 {
-                        other = Some(kind);
-                        break;
+            // no property names the generator the runner builds from `seed` (algorithm, warm-up draws discarded before the
+            // first update): before reporting, look for a member of the seedable family / a warm-up length with which the
+            // documented loop reproduces the runner (such a change keeps C09 true). The first combination found is
+            // remembered for the rest of the process; a search that finds nothing is done at most a few times.
+            use std::sync::atomic::{AtomicIsize, AtomicUsize, Ordering};
+            static REMEMBER: AtomicUsize = AtomicUsize::new(0);
+            static BUDGET: AtomicIsize = AtomicIsize::new(6);
+            let try_one = |kind: usize, skip: u64| -> bool { matches!(guard(|| sim_manual_kind_skip(scn, seed, kind, skip)), Ok((dk, _)) if dk == d1) };
+            let mut found = false;
+            let r = REMEMBER.load(Ordering::Relaxed);
+            if r != 0 {
+                found = try_one((r - 1) / 1000, ((r - 1) % 1000) as u64);
+            }
+            if !found && BUDGET.load(Ordering::Relaxed) > 0 {
+                'search: for skip in (0..=32u64).chain([48, 64, 100, 128, 256, 512]) {
+                    for kind in 0..crate::rng::GEN_NAMES.len() {
+                        if (kind, skip) != (0, 0) && try_one(kind, skip) {
+                            REMEMBER.store(kind * 1000 + skip as usize + 1, Ordering::Relaxed);
+                            found = true;
+                            break 'search;
+                        }
                     }
                 }
-            }
-            match other {
-                Some(_) => stats.probe("runner_generator_other_family_member"),
-                None => {
-                    return Err(v(scn, "nondeterministic", "digest(sim_runner) vs digest(manual loop with the seeded generator)", d1.to_string(), d3.to_string())
-                        .detail("the shipped runner differs from `agents.update(env, rng); env.step(rng)` driven by a generator built from the seed (Xoroshiro128** and 15 other seedable generators tried): some randomness does not come from the seeded generator, or the runner does something else".into()));
+                if !found {
+                    BUDGET.fetch_sub(1, Ordering::Relaxed);
                 }
+            }
+            if found {
+                stats.probe("runner_generator_other_family_member_or_warmup");
+            } else {
+                return Err(v(scn, "nondeterministic", "digest(sim_runner) vs digest(manual loop with the seeded generator)", d1.to_string(), d3.to_string())
+                    .detail("the shipped runner differs from `agents.update(env, rng); env.step(rng)` driven by a generator built from the seed (Xoroshiro128** and 15 other seedable generators, 0..512 warm-up draws tried): some randomness does not come from the seeded generator, or the runner does something else".into()));
             }
         }
         if scn.cfg.child.is_some() {
